@@ -1,6 +1,6 @@
 (* C04 (ladder half) - wrappers unwrapped by the decision ladder itself, and the
    environment-assignment prefix.  Property theorems only; the handler half is Props/C04.v. *)
-From DippyV Require Import Base.Str Base.Verdict Base.Tree Gen.Tables Model.Walker Model.Ladder Proofs.LadderP.
+From DippyV Require Import Base.Str Base.Verdict Base.Tree Gen.Tables Model.Walker Model.Ladder Proofs.LadderP Proofs.C04LP.
 
 Section Oracles.
   Variable mcmd : ctx -> list str -> option verdict.
@@ -28,6 +28,33 @@ Section Oracles.
     skip_wrapper_opts wa (opts ++ [45;45] :: inner) = inner.
   Proof. exact skip_opts_dashdash. Qed.
 
+  (* round 2 (seeded change C04b read a word BEHIND the command name): the words after the wrapped command's name
+     are never consulted by the unwrapping - `w [options] [operands] CMD ARGS` has the verdict of `CMD ARGS` for
+     EVERY list ARGS (ARGS may contain -v, -V, --, -h, the wrapper's own options, another wrapper ...).  The lookup
+     shortcut of `command` is decided by the first word after it alone. *)
+  Theorem C04_inner_arguments_never_consulted : forall c w opts ops cmd args,
+    is_assignment w = false -> mem_str w WRAPPER_COMMANDS = true ->
+    mcmd c (w :: opts ++ ops ++ cmd :: args) = None ->
+    (str_eqb w $"command" && mem_str (hd [] (opts ++ ops ++ [cmd])) COMMAND_V_FLAGS) = false ->
+    forallb (plain_opt (assoc_flags w WRAPPER_FLAGS_WITH_ARG)) opts = true ->
+    length ops = assoc_nat w WRAPPER_OPERANDS ->
+    operand_word (hd cmd ops) = true -> mem_str (hd cmd ops) (assoc_flags w WRAPPER_FLAGS_WITH_ARG) = false ->
+    ladder c (w :: opts ++ ops ++ cmd :: args) = ladder c (cmd :: args).
+  Proof. exact (wrapper_args_irrelevant mcmd handler mredir astr). Qed.
+  (* time / nice / nohup / command / builtin / strace / ltrace directly followed by the command: exact *)
+  Theorem C04_plain_wrapper_exact : forall c w cmd args,
+    is_assignment w = false -> mem_str w WRAPPER_COMMANDS = true -> assoc_nat w WRAPPER_OPERANDS = 0%nat ->
+    mcmd c (w :: cmd :: args) = None ->
+    operand_word cmd = true -> mem_str cmd (assoc_flags w WRAPPER_FLAGS_WITH_ARG) = false ->
+    ladder c (w :: cmd :: args) = ladder c (cmd :: args).
+  Proof. exact (plain_wrapper_exact mcmd handler mredir astr). Qed.
+  Theorem C04_unwrapping_stops_at_command : forall w opts ops cmd args,
+    forallb (plain_opt (assoc_flags w WRAPPER_FLAGS_WITH_ARG)) opts = true ->
+    length ops = assoc_nat w WRAPPER_OPERANDS ->
+    operand_word (hd cmd ops) = true -> mem_str (hd cmd ops) (assoc_flags w WRAPPER_FLAGS_WITH_ARG) = false ->
+    skip_wrapper_args w (opts ++ ops ++ cmd :: args) = cmd :: args.
+  Proof. exact skip_args_stop_at_command. Qed.
+
   (* environment-assignment prefixes neither change the verdict nor hide the command from the rules *)
   Theorem C04_env_prefix : forall c pre ws, forallb is_assignment pre = true -> ladder c (pre ++ ws) = ladder c ws.
   Proof. exact (env_prefix mcmd handler mredir astr). Qed.
@@ -42,6 +69,9 @@ End Oracles.
 Print Assumptions C04_exact_plain.
 Print Assumptions C04_wrapper_options.
 Print Assumptions C04_wrapper_dashdash.
+Print Assumptions C04_inner_arguments_never_consulted.
+Print Assumptions C04_plain_wrapper_exact.
+Print Assumptions C04_unwrapping_stops_at_command.
 Print Assumptions C04_env_prefix.
 Print Assumptions C04_delegate_decides.
 
@@ -52,4 +82,27 @@ Example C04L_example :
   skip_wrapper_args $"strace" [$"-o"; $"ls"; $"rm"; $"x"] = [$"rm"; $"x"] /\
   skip_wrapper_args $"nohup" [$"5"; $"ls"] = [$"5"; $"ls"] /\
   skip_wrapper_args $"command" [$"--"; $"ls"] = [$"ls"].
+Proof. vm_compute. repeat split; reflexivity. Qed.
+(* the hypotheses of C04_inner_arguments_never_consulted hold for `command rm -v build`, `timeout -v 5 rm -k x`,
+   `nice -n 5 rm -n x` is NOT an instance (-n takes an argument: not a plain option) but `nice rm -n x` is *)
+Example C04L_example_args :
+  (str_eqb $"command" $"command" && mem_str (hd [] ([] ++ [] ++ [$"rm"])) COMMAND_V_FLAGS) = false /\
+  operand_word $"rm" = true /\ operand_word $"-v" = false /\
+  forallb (plain_opt (assoc_flags $"timeout" WRAPPER_FLAGS_WITH_ARG)) [$"-v"] = true /\
+  length [$"5"] = assoc_nat $"timeout" WRAPPER_OPERANDS /\
+  skip_wrapper_args $"timeout" ([$"-v"] ++ [$"5"] ++ $"rm" :: [$"-k"; $"x"]) = [$"rm"; $"-k"; $"x"] /\
+  skip_wrapper_args $"command" [$"rm"; $"-v"; $"build"] = [$"rm"; $"-v"; $"build"] /\
+  skip_wrapper_args $"nice" [$"rm"; $"-n"; $"x"] = [$"rm"; $"-n"; $"x"].
+Proof. vm_compute. repeat split; reflexivity. Qed.
+
+(* the unwrapping follows the wrapper's option grammar also for abbreviated long options and for a short option with
+   its argument attached: the command that is analysed is the command the wrapper runs *)
+Example C04_wrapper_abbreviations :
+  skip_wrapper_args $"timeout" [$"--k"; $"1"; $"5"; $"bash"; $"x"; $"-h"] = [$"bash"; $"x"; $"-h"] /\
+  skip_wrapper_args $"timeout" [$"--sig"; $"KILL"; $"5"; $"ls"] = [$"ls"] /\
+  skip_wrapper_args $"timeout" [$"--kill-after=1"; $"5"; $"ls"] = [$"ls"] /\
+  skip_wrapper_args $"timeout" [$"-vk"; $"1"; $"5"; $"ls"] = [$"ls"] /\
+  skip_wrapper_args $"timeout" [$"-k1"; $"5"; $"ls"] = [$"ls"] /\
+  skip_wrapper_args $"timeout" [$"--foreground"; $"5"; $"ls"] = [$"ls"] /\
+  skip_wrapper_args $"nice" [$"--a"; $"5"; $"bash"; $"x"; $"-h"] = [$"bash"; $"x"; $"-h"].
 Proof. vm_compute. repeat split; reflexivity. Qed.
